@@ -4,7 +4,11 @@ integral refinement preserves count/order/indices and moves at most half a patch
 Model: lean/SleapVerif/Model/Peaks.lean; theorems: lean/SleapVerif/Props/C06.lean.
 Correspondence: `find_local_peaks_rough`, `find_local_peaks(refinement in {None,"integral"})`,
 `integral_regression` (real code, real kornia dilation / crop_and_resize) vs the Lean driver
-(run at Rat on the exact dyadic values the float32 maps denote).
+(run at Rat on the exact values of the maps).  Maps come in float64 / float32 / float16 / bfloat16: the
+model is dtype-agnostic — comparisons are exact in the map's own dtype, coordinates are float32
+integers, values keep the map's dtype (all compared exactly).  Integral refinement of
+half-precision maps is out of domain on the unchanged tree (kornia raises `_LinAlgError` / returns
+NaN): recorded by `half_refine_probe` in the evidence, never judged.
 
 Comparison: peak sets, order, (x,y), sample, channel, values: exact.  Refined points: kornia's
 crop goes through a float32 perspective solve + bilinear sampling (patch entries off by up to
@@ -98,10 +102,65 @@ def gen_case(rng):
     maps = [gen_map(rng, h, w, k, den) for k in kinds]
     if S * C > 1 and rng.random() < 0.25:  # identical maps in different slots: index mix-ups stay visible
         maps[rng.randrange(S * C)] = [row[:] for row in maps[0]]
-    thr = rng.choice(THRS)
     p = rng.choice([0, 1, 2, 3, 3, 4, 5, 5, 6, 7, 8])  # integral_patch_size; 0 = refinement None
-    return {"S": S, "C": C, "h": h, "w": w, "den": den, "maps": maps, "thr": thr[0], "p": p,
-            "kind": "+".join(sorted(set(kinds))), "shape": shape}
+    dtype = rng.choice(DTYPE_MIX)
+    if dtype in HALF:
+        p = 0  # integral refinement of half-precision maps is out of domain on the unchanged tree: see half_refine_probe
+    kind = "+".join(sorted(set(kinds)))
+    if dtype == "f64" and rng.random() < 0.5:
+        # float64-only structure: differences far below float32 resolution
+        maps, den = [float64_special(rng, h, w, [[v / den for v in row] for row in m]) for m in maps], 1
+        kind = "f64special"
+    return {"S": S, "C": C, "h": h, "w": w, "den": den, "maps": maps, "thr": pick_thr(rng, dtype), "p": p,
+            "dtype": dtype, "kind": kind, "shape": shape}
+
+
+HALF = ("f16", "bf16")
+DTYPE_MIX = ["f32"] * 5 + ["f64"] * 3 + ["f16", "bf16"]
+DYADIC_THRS = [t for t, q in THRS if q.denominator in (1, 2, 4, 8)]
+
+
+def pick_thr(rng, dtype):
+    """0.2 is only used with float32 maps (torch compares in the map's dtype; float32(0.2) is never a lattice value);
+    for the other dtypes thresholds are dyadic, hence the same number in every dtype and in the model"""
+    return rng.choice(THRS)[0] if dtype == "f32" else rng.choice(DYADIC_THRS)
+
+
+def float64_special(rng, h, w, base):
+    """float64 maps whose decisive differences are below float32 resolution (~6e-8 relative):
+    `near`: lattice values + k*1e-10 (adjacent near-ties, incl. pairs 0.5+1e-10 / 0.5+2e-10);
+    `broad`: a very broad Gaussian peaking at exactly 1.0 on a cell (neighbours are 1 - O(1e-9))"""
+    if rng.random() < 0.5:
+        m = [[v + rng.randrange(0, 4) * 1e-10 for v in row] for row in base]
+        for _ in range(rng.randrange(1, 4)):
+            i, j = rng.randrange(h), rng.randrange(w)
+            top = max(max(r) for r in m) if rng.random() < 0.5 else m[i][j]
+            top = float(round(top * 16) / 16)
+            m[i][j] = top + 2e-10
+            di, dj = rng.choice([(0, 1), (1, 0), (1, 1), (0, -1), (-1, 0), (1, -1)])
+            if 0 <= i + di < h and 0 <= j + dj < w:
+                m[i + di][j + dj] = top + 1e-10
+        return m
+    import math
+    cy, cx, sig = rng.randrange(h), rng.randrange(w), rng.choice([5e3, 2e4, 1e5, 1e6])
+    return [[math.exp(-((i - cy) ** 2 + (j - cx) ** 2) / (2 * sig * sig)) for j in range(w)] for i in range(h)]
+
+
+def big_half_case(rng):
+    """one long map in a half-precision dtype with sides beyond the dtype's exact-integer range"""
+    dtype = rng.choice(["bf16", "bf16", "f16"])
+    n = rng.randrange(262, 300) if dtype == "bf16" else rng.randrange(2052, 2100)
+    lo = 257 if dtype == "bf16" else 2049
+    along_x = rng.random() < 0.5
+    h, w = (rng.randrange(1, 3), n) if along_x else (n, rng.randrange(1, 3))
+    m = [[0 for _ in range(w)] for _ in range(h)]
+    for _ in range(rng.randrange(1, 4)):
+        k = rng.randrange(lo, n) | 1  # odd index: not representable in the dtype
+        k = min(k, n - 1)
+        i, j = (rng.randrange(h), k) if along_x else (k, rng.randrange(w))
+        m[i][j] = rng.randrange(4, 9)
+    return {"S": 1, "C": 1, "h": h, "w": w, "den": 8, "maps": [m], "thr": 0.125, "p": 0,
+            "dtype": dtype, "kind": "big_half", "shape": "big_half"}
 
 
 def thr_rat(t):
@@ -121,14 +180,21 @@ class Impl:
         self.np, self.torch, self.pf = np, torch, pf
 
     def tensor(self, case):
-        t = self.torch.tensor(case["maps"], dtype=self.torch.float32) / case["den"]
-        return t.reshape(case["S"], case["C"], case["h"], case["w"])
+        """maps are built in float64 (lattice values k/8, k/16 and all special values are exact there) and cast to the
+        case's dtype; lattice values are exactly representable in float16 and bfloat16 as well"""
+        t = self.torch.tensor(case["maps"], dtype=self.torch.float64) / case["den"]
+        t = t.reshape(case["S"], case["C"], case["h"], case["w"])
+        return t.to(getattr(self.torch, TORCH_DTYPE[case.get("dtype", "f32")]))
 
-    @staticmethod
-    def canon(res):
+    def exact(self, cms):
+        """the map's values as a float64 numpy array (exact upcast; numpy has no bfloat16)"""
+        return cms.to(self.torch.float64).numpy()
+
+    def canon(self, res):
         pts, vals, si, ci = res
-        assert str(si.dtype) == "torch.int32" and str(ci.dtype) == "torch.int32", (si.dtype, ci.dtype)
-        assert pts.shape == (vals.shape[0], 2) and si.shape == vals.shape == ci.shape
+        self.last_dtypes = tuple(str(t.dtype).replace("torch.", "") for t in (pts, vals, si, ci))
+        if not (tuple(pts.shape) == (vals.shape[0], 2) and si.shape == vals.shape == ci.shape):
+            return ("badshape", tuple(pts.shape), tuple(vals.shape), tuple(si.shape), tuple(ci.shape))
         return [(float(p[0]), float(p[1]), Fraction(float(v)), int(s), int(c))
                 for p, v, s, c in zip(pts.tolist(), vals.tolist(), si.tolist(), ci.tolist())]
 
@@ -139,6 +205,13 @@ class Impl:
     def full(self, cms, thr, refinement, p):
         r = call(self.pf.find_local_peaks, cms, threshold=thr, refinement=refinement, integral_patch_size=p)
         return ("raise",) + r[1:] if r[0] == "raise" else self.canon(r[1])
+
+
+TORCH_DTYPE = {"f64": "float64", "f32": "float32", "f16": "float16", "bf16": "bfloat16"}
+# refined points: float32/float64 maps go through kornia's float32-accurate crop (see module docstring); for half-precision
+# maps the crop is cast back to the map's dtype and integral_regression runs in it (unit round-off 4.9e-4 / 3.9e-3)
+REFINE_TOL = {"f64": 5e-5, "f32": 5e-5, "f16": 1e-2, "bf16": 8e-2}
+BOUND_SLACK = {"f64": 1e-4, "f32": 1e-4, "f16": 2e-2, "bf16": 1.5e-1}
 
 
 def patch_size(case):
@@ -206,15 +279,28 @@ def patch_of(np, a, s, c, x, y, p):
     return P
 
 
+def eff_abs_sum(np, P, a2, p):
+    """Σ|P| plus the bilinear leakage floor: kornia's sampling weights are off by ~2.4e-7, so every patch entry carries an
+    absolute error of that size times the magnitude of the map around it — it matters when the patch itself is tiny
+    (float64 maps with 1e-10-sized peaks next to O(1) cells)"""
+    return float(np.abs(P).sum()) + 5e-3 * p * p * float(np.abs(a2).max())
+
+
 def is_p1_raise(res, p):
     """integral_patch_size = 1: kornia's perspective solve of the degenerate box is singular (F-C06p1)"""
     return p == 1 and bool(res) and res[0] == "raise" and res[1] == "_LinAlgError"
 
 
-def oracle_rough(np, a, thr, got):
-    if got and got[0] == "raise":
-        return f"raised {got[1:]}"
-    want = brute_peaks(np, a, np.float32(thr))
+def thr_in_dtype(np, thr, dtype):
+    """the number torch compares with: the Python scalar is taken in the map's dtype (only float32 sees a non-dyadic one)"""
+    return np.float64(np.float32(thr)) if dtype == "f32" else np.float64(thr)
+
+
+def oracle_rough(np, a, thr, got, dtype="f32"):
+    """`a` = the exact values of the map (float64 array): comparisons on it ARE comparisons in the input dtype"""
+    if got and got[0] in ("raise", "badshape"):
+        return f"{got[0]} {got[1:]}"
+    want = brute_peaks(np, a, thr_in_dtype(np, thr, dtype))
     if got != want:
         missing = [p for p in want if p not in got]
         extra = [p for p in got if p not in want]
@@ -222,16 +308,26 @@ def oracle_rough(np, a, thr, got):
     return None
 
 
-def patch_signatures(P):
-    """structural predicates of a refinement patch (matched against known_findings signatures)"""
-    if (P < 0).any():
+def patch_signatures(P, cells_min=0.0):
+    """structural predicates of a refinement patch (matched against known_findings signatures); `cells_min` = smallest map
+    cell the crop reads (for even patch sizes an entry is the mean of four cells: a negative cell can hide in a tiny
+    positive entry, which is the same defect — the normaliser is not bounded away from 0)"""
+    if (P < 0).any() or cells_min < 0:
         return ["negative_patch"]
     if float(P.sum()) == 0.0:
         return ["zero_sum_patch"]
     return []
 
 
-def oracle_refine(np, a, rough, refined, p):
+def window_min(a2, x, y, p):
+    """smallest cell of the (h,w) map `a2` among those a p-crop around (x,y) reads (rows/cols c-p//2 .. c+p//2)"""
+    h, w = a2.shape
+    m = p // 2
+    win = a2[max(0, y - m): min(h, y + m + 1), max(0, x - m): min(w, x + m + 1)]
+    return float(win.min()) if win.size else 0.0
+
+
+def oracle_refine(np, a, rough, refined, p, dtype="f32"):
     """count/order/indices/values preserved; each point within half a patch of its cell"""
     if refined and refined[0] == "raise":
         return f"raised {refined[1:]}", (["patch_size_1"] if is_p1_raise(refined, p) else [])
@@ -240,9 +336,9 @@ def oracle_refine(np, a, rough, refined, p):
     half = p / 2
     for k, (g, f) in enumerate(zip(rough, refined)):
         dx, dy = f[0] - g[0], f[1] - g[1]
-        if not (abs(dx) <= half + 1e-4 and abs(dy) <= half + 1e-4):  # NaN/inf fail too
+        if not (abs(dx) <= half + BOUND_SLACK[dtype] and abs(dy) <= half + BOUND_SLACK[dtype]):  # NaN/inf fail too
             P = patch_of(np, a, g[3], g[4], int(g[0]), int(g[1]), p)
-            sigs = patch_signatures(P)
+            sigs = patch_signatures(P, window_min(a[g[3], g[4]], int(g[0]), int(g[1]), p))
             return f"peak #{k} at cell ({g[0]},{g[1]}) moved by ({dx},{dy}), half patch = {half}", sigs
     return None, []
 
@@ -251,30 +347,37 @@ def oracle_refine(np, a, rough, refined, p):
 def run_case(chk, I, case, mline, where="generated"):
     np = I.np
     cms = I.tensor(case)
-    a = cms.numpy()
+    a = I.exact(cms)
+    dtype = case.get("dtype", "f32")
     thr, p = case["thr"], patch_size(case)
     model = parse_model(mline)
-    small = {**{k: case[k] for k in ("S", "C", "h", "w", "den", "maps", "thr")}, "p": p}
+    small = {**{k: case[k] for k in ("S", "C", "h", "w", "den", "maps", "thr")}, "p": p, "dtype": dtype}
 
     rough = I.rough(cms, thr)
+    if not (rough and rough[0] == "raise"):
+        # modelling assumption: comparisons are exact in the map's own dtype; coordinates are float32 integers
+        want_dt = ("float32", TORCH_DTYPE[dtype], "int32", "int32")
+        if I.last_dtypes != want_dt:
+            chk.disagree("find_local_peaks_rough output dtypes (points float32, values in the map's dtype, indices int32)",
+                         {k: small[k] for k in ("S", "C", "h", "w", "thr", "p", "dtype")}, list(I.last_dtypes), list(want_dt))
     m_rough = [(float(x), float(y), v, s, c) for x, y, v, s, c, _ in model]
     nontrivial = len(m_rough) > 0
     has_neg = bool((a < 0).any())
-    chk.case((case["S"], case["C"], case["h"], case["w"], thr, p, cms.numpy().tobytes()) if nontrivial else None,
-             {"shape": [case["S"], case["C"], case["h"], case["w"]], "thr": thr, "p": p, "kind": case.get("kind"),
-              "n_peaks": len(m_rough)} if nontrivial else None,
+    chk.case((case["S"], case["C"], case["h"], case["w"], thr, p, dtype, a.tobytes()) if nontrivial else None,
+             {"shape": [case["S"], case["C"], case["h"], case["w"]], "thr": thr, "p": p, "dtype": dtype,
+              "kind": case.get("kind"), "n_peaks": len(m_rough)} if nontrivial and case["h"] * case["w"] < 200 else None,
              tags=[f"shape:{case.get('shape', where)}", f"p:{p}", f"peaks:{min(len(m_rough), 5)}{'+' if len(m_rough) >= 5 else ''}",
-                   "neg" if has_neg else "nonneg"])
+                   "neg" if has_neg else "nonneg", f"dtype:{dtype}"] + ([f"kind:{case['kind']}"] if case.get("kind") in ("f64special", "big_half") else []))
     if rough != m_rough:
         chk.disagree("find_local_peaks_rough == Peaks.localPeaksRough", small, str(rough)[:600], str(m_rough)[:600])
-    why = oracle_rough(np, a, thr, rough)
+    why = oracle_rough(np, a, thr, rough, dtype)
     if why:
-        chk.fail(f"C06 fails on find_local_peaks_rough: {why}", small, str(rough)[:600])
+        chk.fail(f"C06 fails on find_local_peaks_rough ({TORCH_DTYPE[dtype]} maps): {why}", small, str(rough)[:600])
 
     none_ref = I.full(cms, thr, None, 5)
     if none_ref != rough:
         chk.disagree("find_local_peaks(refinement=None) == find_local_peaks_rough", small, str(none_ref)[:600], str(rough)[:600])
-        why = oracle_rough(np, a, thr, none_ref)
+        why = oracle_rough(np, a, thr, none_ref, dtype)
         if why:
             chk.fail(f"C06 fails on find_local_peaks(refinement=None): {why}", small, str(none_ref)[:600])
     if p == 0 or (rough and rough[0] == "raise"):
@@ -295,25 +398,50 @@ def run_case(chk, I, case, mline, where="generated"):
     else:
         for k, (q, m) in enumerate(zip(refined, model)):
             P = patch_of(np, a, m[3], m[4], m[0], m[1], p)
-            z, az = float(P.sum()), float(np.abs(P).sum())
+            z, az = float(P.sum()), eff_abs_sum(np, P, a[m[3], m[4]], p)
             if m[5] == "inf" or abs(z) < 1e-3 * az:
                 chk.knife_edges += 1
                 chk.tag("knife:patch_sum~0")
                 continue
             cond = (p + 1) / 2 * az / abs(z)
-            tol = 5e-5 * max(1.0, cond)
+            tol = REFINE_TOL[dtype] * max(1.0, cond)
             ex, ey = abs(q[0] - float(m[5][0])), abs(q[1] - float(m[5][1]))
-            chk.extra["max_refine_err_over_tol"] = max(chk.extra.get("max_refine_err_over_tol", 0.0), max(ex, ey) / tol)
-            chk.extra["max_refine_abs_err_over_kappa"] = max(chk.extra.get("max_refine_abs_err_over_kappa", 0.0), max(ex, ey) * abs(z) / az)
+            key = "max_refine_err_over_tol" + ("" if dtype in ("f32", "f64") else "_" + dtype)
+            chk.extra[key] = max(chk.extra.get(key, 0.0), max(ex, ey) / tol)
+            if dtype in ("f32", "f64"):
+                chk.extra["max_refine_abs_err_over_kappa"] = max(chk.extra.get("max_refine_abs_err_over_kappa", 0.0), max(ex, ey) * abs(z) / az)
             if not (ex <= tol and ey <= tol):
                 chk.disagree("find_local_peaks(integral) points == Peaks.localPeaks (tol)", {**small, "peak": k},
                              [q[0], q[1]], [float(m[5][0]), float(m[5][1])])
                 break
-    why, sigs = oracle_refine(np, a, rough, refined, p)
+    why, sigs = oracle_refine(np, a, rough, refined, p, dtype)
     if has_neg:
         chk.extra["excluded_region_cases"] = chk.extra.get("excluded_region_cases", 0) + 1
     if why:
         chk.fail(f"C06 fails on find_local_peaks(integral, p={p}): {why}", small, str(refined)[:600], sigs)
+
+
+def half_refine_probe(chk, torch, fn, name):
+    """OUT OF DOMAIN, recorded not judged: integral refinement of float16 / bfloat16 maps on the tree under test.
+    kornia's crop_and_resize builds and inverts the perspective transform in the map's dtype: on the unchanged tree it raises
+    `_LinAlgError` for many shapes and returns NaN / half-pixel-off points for large maps.  The outcome classes are written
+    to the evidence (`out_of_domain`), they never influence the verdict."""
+    out = {}
+    for dt in ("float16", "bfloat16"):
+        for (h, w) in ((1, 1), (2, 1), (5, 5), (9, 9), (3, 300), (300, 300)):
+            for p in (2, 3, 5):
+                cms = torch.zeros(1, 1, h, w)
+                cms[0, 0, h // 2, w // 2] = 1
+                r = call(fn, cms.to(getattr(torch, dt)), threshold=0.25, refinement="integral", integral_patch_size=p)
+                if r[0] == "raise":
+                    k = "raise:" + r[1]
+                else:
+                    pts = r[1][0].flatten().tolist()
+                    fin = all(v == v and abs(v) != float("inf") for v in pts)
+                    k = "no-peak" if len(pts) < 2 else "ok" if fin and abs(pts[0] - w // 2) < 0.1 and abs(pts[1] - h // 2) < 0.1 else ("nan" if not fin else "off")
+                out.setdefault(dt, {}).setdefault(k, 0)
+                out[dt][k] += 1
+    chk.extra.setdefault("out_of_domain", {})[f"{name}(integral) on half-precision maps"] = out
 
 
 def witness_case(w):
@@ -339,7 +467,7 @@ def main(chk: Check):
         cms = I.tensor(case)
         got = I.full(cms, case["thr"], "integral", ent["witness"]["patch"])
         rough = I.rough(cms, case["thr"])
-        why, sigs = oracle_refine(np, cms.numpy(), rough, got, case["p"])
+        why, sigs = oracle_refine(np, I.exact(cms), rough, got, case["p"])
         m = parse_model(run_driver("C06.lean", [model_line(case, cms)])[0])
         if ent["signature"] == "patch_size_1":
             agrees = len(m) == 1 and (is_p1_raise(got, 1) or (len(got) == 1 and m[0][5] not in (None, "inf")
@@ -368,9 +496,17 @@ def main(chk: Check):
                   "maps": [[[3]], [[0]]]})
     cases.append({"S": 2, "C": 1, "h": 3, "w": 3, "den": 8, "thr": 0.125, "p": 3, "kind": "fixed", "shape": "fixed",
                   "maps": [[[8, 0, 8], [0, 0, 0], [8, 0, 8]], [[8, 8, 0], [0, 0, 0], [0, 0, 1]]]})
+    # float64 near-ties below float32 resolution (seed C06-r3m3's two patterns) and a broad float64 bump
+    cases.append({"S": 1, "C": 1, "h": 3, "w": 4, "den": 1, "thr": 0.25, "p": 0, "dtype": "f64", "kind": "f64special", "shape": "fixed",
+                  "maps": [[[0.0, 0.0, 0.0, 0.0], [0.0, 0.5 + 1e-10, 0.5 + 2e-10, 0.0], [0.0, 0.0, 0.0, 0.0]]]})
+    cases.append({"S": 1, "C": 1, "h": 5, "w": 5, "den": 1, "thr": 0.5, "p": 3, "dtype": "f64", "kind": "f64special", "shape": "fixed",
+                  "maps": [[[math.exp(-((i - 2) ** 2 + (j - 2) ** 2) / (2 * 1e4 ** 2)) for j in range(5)] for i in range(5)]]})
+    for _ in range(chk.n(2, 12)):
+        cases.append(big_half_case(rng))
     for _ in range(chk.n(1000, 8000)):
         cases.append(gen_case(rng))
 
+    half_refine_probe(chk, torch, I.pf.find_local_peaks, "find_local_peaks")
     lines = [model_line(c, I.tensor(c)) for c in cases]
     out = run_driver("C06.lean", lines)
     for c, m in zip(cases, out):
@@ -439,6 +575,11 @@ if __name__ == "__main__":
         assumptions=[
             "finite maps; threshold >= -1e4 (kornia's border constant); integral_patch_size 1..8: odd p reads cells, even p reads "
             "means of four cells (half-integer sampling), both modelled; p = 1 raises inside kornia (F-C06p1) where the model gives offset 0",
+            "dtypes: maps in float64 / float32 / float16 / bfloat16; the model is dtype-agnostic (runs on the exact values): "
+            "comparisons are exact in the map's own dtype, coordinates are float32 integers, values keep the map's dtype — "
+            "checked exactly for the rough detector in all four dtypes; thresholds are dyadic except 0.2 with float32 maps",
+            "OUT OF DOMAIN (recorded in evidence.out_of_domain, not judged): integral refinement of float16/bfloat16 maps — on the "
+            "unchanged tree kornia's crop_and_resize raises _LinAlgError for many shapes and returns NaN for large maps",
             "refinement bound is proved for non-negative patches with positive sum only (F-C06); negative patches are sampled "
             "every run with the property oracle (excluded_region_cases) — search, not proof",
         ],
